@@ -1120,6 +1120,20 @@ func (t *State) procTodoBlkForWalk(todoBlocks []*pb.InternalBlock) (err error) {
 		showBlkId = hex.EncodeToString(todoBlk.Blockid)
 
 		t.log.Info("start do block for walk", "blockid", showBlkId)
+		// 检查块内的utxo双花情况: the inputs spent earlier in this block are only deleted in the batch,
+		// so a second spender of the same utxo would still find it in the db (PlayAndRepost makes the
+		// same check in processUnconfirmTxs)
+		utxoKeysInBlock := map[string]bool{}
+		for _, blkTx := range todoBlk.Transactions {
+			for _, txInput := range blkTx.TxInputs {
+				utxoKey := utxo.GenUtxoKey(txInput.FromAddr, txInput.RefTxid, txInput.RefOffset)
+				if utxoKeysInBlock[utxoKey] {
+					t.log.Warn("found duplicated utxo in same block", "utxoKey", utxoKey, "txid", utils.F(blkTx.Txid))
+					return fmt.Errorf("found duplicated utxo in same block.blockid:%s", showBlkId)
+				}
+				utxoKeysInBlock[utxoKey] = true
+			}
+		}
 		// 将batch赋值到合约机的上下文
 		batch := t.ldb.NewBatch()
 
